@@ -142,6 +142,8 @@ fn run_one(sc: &Value, workdir: &Path, watchdog_ms: u64) -> Outcome1 {
     };
     let ops = Arc::new(Ops::new(&world));
     let calls: Arc<Mutex<Vec<Value>>> = Arc::new(Mutex::new(Vec::new()));
+    // memory back-end: lock names are pointers; find out the namespaces
+    let namer = crate::locks::Namer::probe(&world);
 
     // sequential prefix
     for op in sc["pre"].as_array().cloned().unwrap_or_default() {
@@ -322,7 +324,25 @@ fn run_one(sc: &Value, workdir: &Path, watchdog_ms: u64) -> Outcome1 {
         // a call did not return within the watchdog limit
         let snap1 = verif::locks_snapshot();
         std::thread::sleep(Duration::from_millis(500));
-        let snap2 = verif::locks_snapshot();
+        let mut snap2 = verif::locks_snapshot();
+        if let Some(entries) = snap2.as_array_mut() {
+            for e in entries {
+                if let Ok(name) = namer.name(str_arg(e, "name")) {
+                    e["name"] = json!(name);
+                }
+            }
+        }
+        let snap1 = {
+            let mut s = snap1;
+            if let Some(entries) = s.as_array_mut() {
+                for e in entries {
+                    if let Ok(name) = namer.name(str_arg(e, "name")) {
+                        e["name"] = json!(name);
+                    }
+                }
+            }
+            s
+        };
         let cycle = if snap1 == snap2 {
             wait_cycle(&snap2, memory)
         } else {
@@ -371,7 +391,21 @@ fn run_one(sc: &Value, workdir: &Path, watchdog_ms: u64) -> Outcome1 {
     line["tasks"] = json!(*sched_log.lock().unwrap());
     if fatal.is_none() {
         // whatever the stopped scheduler left is run here
-        match guarded(|| world.settle(400)) {
+        // ... followed by one round of the periodic refresh (every CA asks
+        // its parents for its entitlements), so that "caught up" does not
+        // depend on the ten-minute timer: a sync that sends pending
+        // requests does not fetch entitlements in the same run. Nothing is
+        // re-published on purpose: a publication lost in a race must stay
+        // visible.
+        match guarded(|| -> Result<Vec<String>, String> {
+            let mut names = world.settle(400)?;
+            let cam = ops.krill.ca_manager();
+            cam.cas_schedule_refresh_all(&ops.krill).map_err(|e| {
+                e.to_string()
+            })?;
+            names.extend(world.settle(400)?);
+            Ok(names)
+        }) {
             Outcome::Ok(Ok(names)) => {
                 line["tasks_after"] = json!(names);
             }
